@@ -22,6 +22,7 @@ import (
 	"github.com/youzan/ZanRedisDB/common"
 	"github.com/youzan/ZanRedisDB/engine"
 	"github.com/youzan/ZanRedisDB/metric"
+	"github.com/youzan/ZanRedisDB/pkg/verifhook"
 )
 
 const (
@@ -155,6 +156,7 @@ func purgeOldCheckpoint(keepNum int, checkpointDir string, latestSnapIndex uint6
 			if sindex >= latestSnapIndex {
 				break
 			}
+			verifhook.Point("rockredis.purge.beforeRemove")
 			os.RemoveAll(sortedNameList[i])
 			dbLog.Infof("clean checkpoint : %v", sortedNameList[i])
 		}
@@ -833,6 +835,7 @@ func (r *RockDB) backupLoop() {
 					os.RemoveAll(rsp.backupDir)
 				}
 				rsp.rsp = []byte(rsp.backupDir)
+				verifhook.Point("rockredis.backup.beforeSave")
 				err = ck.Save(rsp.backupDir, rsp.started)
 				r.checkpointDirLock.Unlock()
 				if err != nil {
@@ -840,9 +843,11 @@ func (r *RockDB) backupLoop() {
 					rsp.err = err
 					return
 				}
+				verifhook.Point("rockredis.backup.afterSave")
 				cost := time.Now().Sub(start)
 				dbLog.Infof("backup done (cost %v), check point to: %v\n", cost.String(), rsp.backupDir)
 			}()
+			verifhook.Point("rockredis.backup.beforePurge")
 			// purge some old checkpoint
 			r.checkpointDirLock.Lock()
 			keepNum := MaxCheckpointNum
@@ -1076,11 +1081,13 @@ func (r *RockDB) restoreFromPath(backupDir string, term uint64, index uint64) er
 		dbLog.Infof("removing: %v", fn)
 		os.RemoveAll(fn)
 	}
+	verifhook.Point("rockredis.restore.afterDelete")
 	for _, fn := range ckNameList {
 		if strings.HasPrefix(path.Base(fn), "LOG") {
 			dbLog.Infof("ignore copy LOG file: %v", fn)
 			continue
 		}
+		verifhook.Point("rockredis.restore.betweenCopies")
 		dst := path.Join(r.GetDataDir(), path.Base(fn))
 		var err error
 		if strings.HasSuffix(fn, ".sst") {
@@ -1096,6 +1103,7 @@ func (r *RockDB) restoreFromPath(backupDir string, term uint64, index uint64) er
 		}
 	}
 
+	verifhook.Point("rockredis.restore.beforeReopen")
 	err = r.reOpenEng()
 	dbLog.Infof("restore done, cost: %v\n", time.Now().Sub(start))
 	if err != nil {
